@@ -77,7 +77,7 @@ fn script_strat(_: &Ctx) -> BoxedStrategy<StepCase> {
             )
         })
         .prop_map(|((steps, inner), kt_start, kt_ratio, max_step, seed, b, init_frac, patterns)| StepCase {
-            cfg: OptCfg { steps, inner, kt_start, kt_finish: None, kt_ratio, max_step, convergence: None, seed },
+            cfg: OptCfg { steps, inner, kt_start, kt_finish: None, kt_ratio, max_step, convergence: if seed % 4 == 0 { Some(1e-6) } else { None }, seed },
             bounds: b.into_iter().map(|(lo, w)| (lo, lo + w)).collect(),
             init_frac,
             patterns,
@@ -196,6 +196,8 @@ pub struct RealCase {
     pub group: usize,
     pub shape: ShapeSpec,
     pub lj: bool,
+    #[serde(default)]
+    pub warm: u64,
 }
 
 fn real_strat(_: &Ctx) -> BoxedStrategy<RealCase> {
@@ -209,25 +211,45 @@ fn real_strat(_: &Ctx) -> BoxedStrategy<RealCase> {
     )
         .prop_flat_map(|((steps, inner), kt_start, max_step, seed, group, lj)| {
             let shape = if lj { crate::gen::mol_shape_spec() } else { prop_oneof![crate::gen::line_shape_spec(), crate::gen::mol_shape_spec()].boxed() };
-            (Just(OptCfg { steps, inner, kt_start, kt_finish: None, kt_ratio: Some(0.1), max_step, convergence: None, seed }), Just(group), shape, Just(lj))
+            (Just(OptCfg { steps, inner, kt_start, kt_finish: None, kt_ratio: Some(0.1), max_step, convergence: None, seed }), Just(group), shape, Just(lj), prop_oneof![Just(0u64), Just(2000u64), Just(6000u64)], prop_oneof![3 => Just(None), 1 => Just(Some(1e-6)), 1 => Just(Some(0.))])
         })
-        .prop_map(|(cfg, group, shape, lj)| RealCase { cfg, group, shape, lj })
+        .prop_map(|(mut cfg, group, shape, lj, warm, convergence)| {
+            cfg.convergence = convergence;
+            RealCase { cfg, group, shape, lj, warm }
+        })
         .boxed()
 }
 
-fn judge_real<S: State>(state: S, group: usize, cfg: &OptCfg, rec: &Rec) -> Result<Option<(u64, bool)>, String> {
+fn judge_real<S: State + Serialize + serde::de::DeserializeOwned>(state: S, group: usize, cfg: &OptCfg, warm: u64, rec: &Rec) -> Result<Option<(u64, bool)>, String> {
     if !state.score().map(|s| s.is_finite()).unwrap_or(false) {
         return Ok(None);
     }
-    let init = crate::probe::params_of_state(&state);
-    let oblique = crate::gen::is_oblique(group);
-    let ranges: Vec<f64> = if oblique && init.len() == 6 {
-        vec![init[0] - 0.01, init[1] - 0.1, PI / 2. - PI / 6., 1., 1., 2. * PI]
-    } else if !oblique && init.len() == 5 {
-        vec![init[0] - 0.01, init[1] - 0.1, 1., 1., 2. * PI]
-    } else {
-        return Ok(None);
+    let state = match crate::opt::warm_start(state, warm, cfg.seed ^ 0x5eed) {
+        Ok(s) => s,
+        Err(_) => return Ok(None),
     };
+    if !state.score().map(|s| s.is_finite()).unwrap_or(false) {
+        return Ok(None);
+    }
+    let _ = group;
+    let init = crate::probe::params_of_state(&state);
+    // the allowed range of each handle, by the field it drives (discovered by probing, not by position)
+    let reader = match statejson::ParamReader::new(&state) {
+        Some(r) => r,
+        None => return Ok(None),
+    };
+    let p0 = match reader.params(&init) {
+        Some(p) => p,
+        None => return Ok(None),
+    };
+    let by_field = [p0.length - 0.01, p0.ratio - 0.1, PI / 2. - PI / 6., 1., 1., 2. * PI];
+    let mut ranges: Vec<f64> = Vec::new();
+    for f in reader.field_of.iter() {
+        match f {
+            Some(f) => ranges.push(by_field[*f]),
+            None => return Ok(None),
+        }
+    }
     let probe = Probe::new(state, cfg.kt_start == 0.);
     let model = probe.model.clone();
     {
@@ -252,16 +274,16 @@ fn real_oracle(c: &RealCase, rec: &Rec, _: &Ctx) -> Result<(), String> {
     let wg = statejson::wg(c.group);
     let r = if c.lj {
         let shape = statejson::lj_shape(&c.shape).ok_or("shape")?;
-        judge_real(packing::PotentialState::from_group(shape, &wg).map_err(|e| e.to_string())?, c.group, &c.cfg, rec)?
+        judge_real(packing::PotentialState::from_group(shape, &wg).map_err(|e| e.to_string())?, c.group, &c.cfg, c.warm, rec)?
     } else {
         match &c.shape {
             ShapeSpec::Polygon { .. } | ShapeSpec::Radial { .. } => {
                 let shape = statejson::line_shape(&c.shape).ok_or("shape")?;
-                judge_real(packing::PackedState::from_group(shape, &wg).map_err(|e| e.to_string())?, c.group, &c.cfg, rec)?
+                judge_real(packing::PackedState::from_group(shape, &wg).map_err(|e| e.to_string())?, c.group, &c.cfg, c.warm, rec)?
             }
             _ => {
                 let shape = statejson::mol_shape(&c.shape).ok_or("shape")?;
-                judge_real(packing::PackedState::from_group(shape, &wg).map_err(|e| e.to_string())?, c.group, &c.cfg, rec)?
+                judge_real(packing::PackedState::from_group(shape, &wg).map_err(|e| e.to_string())?, c.group, &c.cfg, c.warm, rec)?
             }
         }
     };
